@@ -99,3 +99,73 @@ func (ufd UnionField) usedTypes() map[string]bool {
 	}
 	return map[string]bool{}
 }
+
+// minWireSizes reports, for every named type, the fewest bytes a value of it occupies on the wire.
+func (f File) minWireSizes(settings GenerateSettings) map[string]int {
+	out := map[string]int{typeString: 4}
+	for typ, sz := range fixedSizeTypes {
+		out[typ] = int(sz)
+	}
+	for _, en := range f.Enums {
+		out[en.Name] = int(fixedSizeTypes[en.SimpleType])
+	}
+	for _, msg := range f.Messages {
+		// length prefix and terminator
+		out[msg.Name] = 5
+	}
+	structs := append([]Struct{}, f.Structs...)
+	for _, un := range f.Unions {
+		// length prefix and discriminator
+		out[un.Name] = 5
+		for _, ufd := range un.Fields {
+			if ufd.Message != nil {
+				out[ufd.Message.Name] = 5
+			}
+			if ufd.Struct != nil {
+				structs = append(structs, *ufd.Struct)
+			}
+		}
+	}
+	// a struct is the sum of its fields; structs cannot contain themselves, so this settles
+	settings.minWireSizes = out
+	for changed := true; changed; {
+		changed = false
+		for _, st := range structs {
+			if _, ok := out[st.Name]; ok {
+				continue
+			}
+			sum, known := 0, true
+			for _, fd := range st.Fields {
+				if fd.FieldType.Simple != "" {
+					name := fd.FieldType.Simple
+					if alias, ok := settings.importTypeAliases[name]; ok {
+						name = alias
+					}
+					if _, ok := out[name]; !ok {
+						known = false
+						break
+					}
+				}
+				sum += fd.FieldType.minWireSize(settings)
+			}
+			if known {
+				out[st.Name] = sum
+				changed = true
+			}
+		}
+	}
+	return out
+}
+
+// minWireSize is the fewest bytes a value of this type occupies on the wire (0 if unknown).
+func (ft FieldType) minWireSize(settings GenerateSettings) int {
+	if ft.Array != nil || ft.Map != nil {
+		// element count
+		return 4
+	}
+	name := ft.Simple
+	if alias, ok := settings.importTypeAliases[name]; ok {
+		name = alias
+	}
+	return settings.minWireSizes[name]
+}
